@@ -145,6 +145,67 @@ def main(tier: str) -> int:
                 add({"op": "ad_update_u", "u": C.rat(u), "S": [C.rat(float(v)) for v in S], "df": [C.rat(float(v)) for v in dfv]},
                     ("update_U:SHAGA:direct", {"u": u, "S": S.tolist(), "df": dfv.tolist()}, got))
 
+    # ---- the TRANSLATED jDE regeneration functions (TFV/Generated/Src/jDE_get_mutate_{F,CR}.lean, read through TFV.Model.NpQ) evaluated by
+    #      Lean against the real methods with the same forced draws (dyadic numbers: every float operation on them is exact)
+    import subprocess
+    import thefittest.optimizers._jde as JM
+    from thefittest.optimizers import jDE as _jDE
+    jcases = []
+    for _ in range(24 if tier == "quick" else 200):
+        n_ = rng.randint(1, 6)
+        which = rng.choice(["F", "CR"])
+        cur = [rng.randint(0, 16) / 16 for _ in range(n_)]
+        rate = rng.choice([0.0, 0.25, 0.5, 1.0])
+        d0 = [rng.randint(0, 7) / 8 for _ in range(n_)]
+        d1 = [rng.randint(0, 7) / 8 for _ in range(sum(1 for v in d0 if v < rate))]
+        fmin, fmax = rng.choice([(0.125, 0.75), (0.5, 0.25), (0.0, 1.0)])
+        jcases.append((which, cur, rate, d0, d1, fmin, fmax))
+    q8 = lambda v: "[" + ", ".join("(%d : Rat) / 16" % int(round(x * 16)) for x in v) + "]"   # noqa: E731
+    jlines = ["import TFV.Generated.Src.jDE_get_mutate_F", "import TFV.Generated.Src.jDE_get_mutate_CR", "open TFV TFV.Generated.Src",
+              "def showQ : Option (List Rat) → String | none => \"none\" | some v => toString (v.map fun q => (q.num, q.den))"]
+    for which, cur, rate, d0, d1, fmin, fmax in jcases:
+        drawfn = "(fun k _ => if k = 0 then %s else %s)" % (q8(d0), q8(d1))
+        if which == "F":
+            jlines.append("#eval IO.println (showQ (jDE_get_mutate_F %s %s %d ((%d : Rat) / 16) ((%d : Rat) / 16) ((%d : Rat) / 16)))"
+                          % (drawfn, q8(cur), len(cur), round(rate * 16), round(fmin * 16), round(fmax * 16)))
+        else:
+            jlines.append("#eval IO.println (showQ (jDE_get_mutate_CR %s %s %d ((%d : Rat) / 16)))" % (drawfn, q8(cur), len(cur), round(rate * 16)))
+    jaudit = C.LEAN / "TFV" / "Audit" / "C15_np.lean"
+    jaudit.parent.mkdir(parents=True, exist_ok=True)
+    jaudit.write_text("\n".join(jlines) + "\n")
+    with C.LeanLock():
+        jpr = subprocess.run(["lake", "env", "lean", str(jaudit.relative_to(C.LEAN))], cwd=C.LEAN, capture_output=True, text=True, timeout=900)
+    jgot = [l.strip() for l in jpr.stdout.splitlines() if l.strip()]
+    chk.obligation("the translated jDE regeneration functions evaluate (lake env lean TFV/Audit/C15_np.lean)", jpr.returncode == 0 and len(jgot) == len(jcases), (jpr.stdout + jpr.stderr)[-600:])
+    if jpr.returncode == 0 and len(jgot) == len(jcases):
+        import re as _re
+        saved_uniform = JM.uniform
+        try:
+            for (which, cur, rate, d0, d1, fmin, fmax), g in zip(jcases, jgot):
+                jo = _jDE(fitness_function=lambda x: np.sum(x, axis=1), iters=2, pop_size=len(cur), left_border=-1.0, right_border=1.0, num_variables=2,
+                          F_min=fmin, F_max=fmax, t_F=rate, t_CR=rate)
+                feed = [np.array(d0, dtype=np.float64), np.array(d1, dtype=np.float64)]
+                asked = []
+
+                def fake_uniform(lo, hi, size, _feed=feed, _asked=asked):
+                    _asked.append(int(size))
+                    return _feed[len(_asked) - 1].copy()
+                JM.uniform = fake_uniform
+                if which == "F":
+                    jo._F = np.array(cur, dtype=np.float64)
+                    real = [float(v) for v in jo._get_mutate_F()]
+                else:
+                    jo._CR = np.array(cur, dtype=np.float64)
+                    real = [float(v) for v in jo._get_mutate_CR()]
+                vals = None if g == "none" else [int(a) / int(b) for a, b in _re.findall(r"\((-?\d+), (\d+)\)", g)]
+                chk.count("np_kernel_jde_" + which)
+                same = vals is not None and asked == [len(d0), len(d1)] and len(vals) == len(real) and all(C.close(a, b, 1e-12, 1e-12) for a, b in zip(real, vals))
+                (chk.agree("np_kernel:jde_mutate_" + which) if same else
+                 chk.disagree("np_kernel:jde_mutate_" + which, {"input": {"current": cur, "rate": rate, "first_draw": d0, "second_draw": d1, "F_min": fmin, "F_max": fmax,
+                                                                          "sizes_asked": asked}, "impl": real, "model": g}))
+        finally:
+            JM.uniform = saved_uniform
+
     # ---- runs
     runs = []
     sid = 0
